@@ -476,4 +476,98 @@ theorem closures_present :
     ∀ n ∈ ["ts_vcov", "ts_vcorr", "ts_vregx_alpha", "ts_vregx_beta", "ts_vregx_all", "ts_vreg", "ts_vtsf", "ts_vreg_slope", "ts_vreg_intercept", "ts_vreg_resid_mean"], n ∈ Gen.closures := by
   simp [Gen.closures]
 
+/-! ## the residual closures over `rolling2_apply_idx` (`ts_vregx_resid_mean/std/skew`)
+
+The result of these closures applies an aggregation of agg.rs (regenerated in `GenAgg.lean`) to the
+residuals of the window re-read through `uget`. Proved here, for one call of each regenerated
+closure: the running sums track the model's `Cross` state through the add and the index-driven
+removal (`*_state`), and the result is the NaN literal below `min_periods` pairwise-complete
+observations (`*_mask`). The residual statistics themselves are compared by the correspondence
+run (`C11Gen` relates the three aggregations to their model). -/
+
+theorem uget_pair (xs ys : List (Option Rat)) (k : Nat) : (Gen.uget xs k, Gen.uget ys k) = ugetPair xs ys k := by
+  simp [Gen.uget, ugetPair, List.getD_eq_getElem?_getD]
+
+/-- the state after one call of the model closure (`idxRun`: add, then remove the element at `start`) -/
+def residNext (xs ys : List (Option Rat)) (m : Cross) (st : Option Nat) (v : Pair) : Cross :=
+  match st with
+  | some k => Cross.remove (Cross.add m v) (ugetPair xs ys k)
+  | none => Cross.add m v
+
+def R_resid_mean (g : Gen.ts_vregx_resid_mean.St) (m : Cross) : Prop :=
+  g.n = m.n ∧ g.sum_a = m.sa ∧ g.sum_b = m.sb ∧ g.sum_b2 = m.sbb ∧ g.sum_ab = m.sab
+
+theorem ts_vregx_resid_mean_state (sqrt : Rat → Rat) (xs ys : List (Option Rat)) (len w mp : Nat)
+    (g : Gen.ts_vregx_resid_mean.St) (m : Cross) (st : Option Nat) (e : Nat) (v : Pair) (h : R_resid_mean g m) :
+    R_resid_mean (Gen.ts_vregx_resid_mean.step sqrt xs ys len w mp g st e v).1 (residNext xs ys m st v) := by
+  obtain ⟨h0, h1, h2, h3, h4⟩ := h
+  obtain ⟨va, vb⟩ := v
+  cases st with
+  | none =>
+    cases va <;> cases vb <;>
+      simp [Gen.ts_vregx_resid_mean.step, residNext, Cross.add, R_resid_mean, h0, h1, h2, h3, h4]
+  | some k =>
+    simp only [residNext, ← uget_pair]
+    cases hpa : Gen.uget xs k <;> cases hpb : Gen.uget ys k <;> cases va <;> cases vb <;>
+      simp [Gen.ts_vregx_resid_mean.step, Cross.add, Cross.remove, R_resid_mean, h0, h1, h2, h3, h4, hpa, hpb]
+
+theorem ts_vregx_resid_mean_mask (sqrt : Rat → Rat) (xs ys : List (Option Rat)) (len w mp : Nat)
+    (g : Gen.ts_vregx_resid_mean.St) (m : Cross) (st : Option Nat) (e : Nat) (v : Pair) (h : R_resid_mean g m)
+    (hlt : (Cross.add m v).n < mp) :
+    (Gen.ts_vregx_resid_mean.step sqrt xs ys len w mp g st e v).2 = none := by
+  obtain ⟨h0, h1, h2, h3, h4⟩ := h
+  obtain ⟨va, vb⟩ := v
+  cases va <;> cases vb <;> simp only [Cross.add] at hlt <;>
+    simp [Gen.ts_vregx_resid_mean.step, h0, hlt, Nat.not_le.mpr hlt]
+def R_resid_std (g : Gen.ts_vregx_resid_std.St) (m : Cross) : Prop :=
+  g.n = m.n ∧ g.sum_a = m.sa ∧ g.sum_b = m.sb ∧ g.sum_b2 = m.sbb ∧ g.sum_ab = m.sab
+
+theorem ts_vregx_resid_std_state (sqrt : Rat → Rat) (xs ys : List (Option Rat)) (len w mp : Nat)
+    (g : Gen.ts_vregx_resid_std.St) (m : Cross) (st : Option Nat) (e : Nat) (v : Pair) (h : R_resid_std g m) :
+    R_resid_std (Gen.ts_vregx_resid_std.step sqrt xs ys len w mp g st e v).1 (residNext xs ys m st v) := by
+  obtain ⟨h0, h1, h2, h3, h4⟩ := h
+  obtain ⟨va, vb⟩ := v
+  cases st with
+  | none =>
+    cases va <;> cases vb <;>
+      simp [Gen.ts_vregx_resid_std.step, residNext, Cross.add, R_resid_std, h0, h1, h2, h3, h4]
+  | some k =>
+    simp only [residNext, ← uget_pair]
+    cases hpa : Gen.uget xs k <;> cases hpb : Gen.uget ys k <;> cases va <;> cases vb <;>
+      simp [Gen.ts_vregx_resid_std.step, Cross.add, Cross.remove, R_resid_std, h0, h1, h2, h3, h4, hpa, hpb]
+
+theorem ts_vregx_resid_std_mask (sqrt : Rat → Rat) (xs ys : List (Option Rat)) (len w mp : Nat)
+    (g : Gen.ts_vregx_resid_std.St) (m : Cross) (st : Option Nat) (e : Nat) (v : Pair) (h : R_resid_std g m)
+    (hlt : (Cross.add m v).n < mp) :
+    (Gen.ts_vregx_resid_std.step sqrt xs ys len w mp g st e v).2 = none := by
+  obtain ⟨h0, h1, h2, h3, h4⟩ := h
+  obtain ⟨va, vb⟩ := v
+  cases va <;> cases vb <;> simp only [Cross.add] at hlt <;>
+    simp [Gen.ts_vregx_resid_std.step, h0, hlt, Nat.not_le.mpr hlt]
+def R_resid_skew (g : Gen.ts_vregx_resid_skew.St) (m : Cross) : Prop :=
+  g.n = m.n ∧ g.sum_a = m.sa ∧ g.sum_b = m.sb ∧ g.sum_b2 = m.sbb ∧ g.sum_ab = m.sab
+
+theorem ts_vregx_resid_skew_state (sqrt : Rat → Rat) (xs ys : List (Option Rat)) (len w mp : Nat)
+    (g : Gen.ts_vregx_resid_skew.St) (m : Cross) (st : Option Nat) (e : Nat) (v : Pair) (h : R_resid_skew g m) :
+    R_resid_skew (Gen.ts_vregx_resid_skew.step sqrt xs ys len w mp g st e v).1 (residNext xs ys m st v) := by
+  obtain ⟨h0, h1, h2, h3, h4⟩ := h
+  obtain ⟨va, vb⟩ := v
+  cases st with
+  | none =>
+    cases va <;> cases vb <;>
+      simp [Gen.ts_vregx_resid_skew.step, residNext, Cross.add, R_resid_skew, h0, h1, h2, h3, h4]
+  | some k =>
+    simp only [residNext, ← uget_pair]
+    cases hpa : Gen.uget xs k <;> cases hpb : Gen.uget ys k <;> cases va <;> cases vb <;>
+      simp [Gen.ts_vregx_resid_skew.step, Cross.add, Cross.remove, R_resid_skew, h0, h1, h2, h3, h4, hpa, hpb]
+
+theorem ts_vregx_resid_skew_mask (sqrt : Rat → Rat) (xs ys : List (Option Rat)) (len w mp : Nat)
+    (g : Gen.ts_vregx_resid_skew.St) (m : Cross) (st : Option Nat) (e : Nat) (v : Pair) (h : R_resid_skew g m)
+    (hlt : (Cross.add m v).n < mp) :
+    (Gen.ts_vregx_resid_skew.step sqrt xs ys len w mp g st e v).2 = none := by
+  obtain ⟨h0, h1, h2, h3, h4⟩ := h
+  obtain ⟨va, vb⟩ := v
+  cases va <;> cases vb <;> simp only [Cross.add] at hlt <;>
+    simp [Gen.ts_vregx_resid_skew.step, h0, hlt, Nat.not_le.mpr hlt]
+
 end Tv.C04Gen
